@@ -409,13 +409,20 @@ def product_law_case(translated=False):
     return Case(cname, body, goals, family="dependent_product", params=dict(translated=translated), max_paths=16)
 
 
-def grid_case(kind, n):
-    cname = "grid/%s/n%d" % (kind, n)
+def grid_case(kind, n, history=False):
+    """history: the grid asked for is the THIRD one drawn through this object -- before it, a translated copy
+    (Translate wrapper sharing the object) and the object itself were gridded with the same n"""
+    cname = "grid/%s/n%d%s" % (kind, n, "/after_translated_copy_and_itself" if history else "")
 
     def body(env):
         sh = SH.PRIMS[kind](env)
         L = env.L
         env.assume(sh.oset.positive({}, L))
+        if history:
+            tr = SH.translate(env, sh)
+            tr.dom.sample_grid(n=n)
+            sh.dom.sample_grid(n=n)
+            tr.dom.sample_grid(n=n)
         pts = sh.dom.sample_grid(n=n)
         return dict(p=pts, sh=sh, n=len(pts))
 
@@ -444,7 +451,7 @@ def grid_case(kind, n):
                 b = (d1[0] * q[1] - d1[1] * q[0])
                 yield "inside_open_lattice_cell[%d]" % i, L.And(L.gt(a * D, 0), L.gt(b * D, 0))
 
-    return Case(cname, body, goals, family="grid/" + kind, params=dict(kind=kind, n=n), max_paths=40, int_hi=6)
+    return Case(cname, body, goals, family="grid/" + kind, params=dict(kind=kind, n=n, history=history), max_paths=40, int_hi=6)
 
 
 def lattice_case(kind, n):
@@ -638,6 +645,7 @@ def cases(tier):
     for kind in ("Interval", "Circle"):
         for n in ((2, 3) if quick else (1, 2, 3, 4)):
             cs.append(grid_case(kind, n))
+        cs.append(grid_case(kind, 3, history=True))
     for kind in ("Parallelogram", "Triangle"):
         for n in ((2,) if quick else (2, 3, 4)):
             cs.append(lattice_case(kind, n))
